@@ -476,6 +476,8 @@ def judge(sname, fe_name, run):
         interests[i] = it
         interests[100 + i] = it
     acc, _first = acceptable_outcomes(run.trace, interests, b.ref_packets, legacy=(fe_name == 'legacy'))
+    # the statement read literally also for the legacy front-end: the deadline covers the validation (recorded finding, see DESIGN 8.3)
+    strict = acceptable_outcomes(run.trace, interests, b.ref_packets, legacy=False)[0] if fe_name == 'legacy' else acc
     for i, nm in obs.get('bad_vnames', ()):
         viol.append((f'C03|{fe_name}|validator-given-another-name', f'the validator of Interest {i} of {sname} was asked about the name /{nm}, which no '
                                                                    f'delivered Data packet carries'))
@@ -491,6 +493,10 @@ def judge(sname, fe_name, run):
         elif got not in allowed:
             viol.append((f'C03|{fe_name}|wrong-outcome|got={cls(got)}|allowed={"/".join(sorted(cls(a) for a in allowed))}',
                          f'Interest {i} of {sname} finished with {got}; acceptable per reference PIT: {sorted(allowed)}'))
+        elif got not in strict.get(i, set()) and cls(got) in ('data', 'invalid') and {cls(a) for a in strict.get(i, set())} == {'timeout'}:
+            viol.append((f'C03|legacy|verdict-after-deadline|got={cls(got)}',
+                         f'Interest {i} of {sname}: the Data arrived in time, the validator answered only after the deadline, and the caller got '
+                         f'{got} instead of a timeout'))
     # a timeout is reported at the deadline (or at once when the result is fetched only after it), not some time later: once
     # the clock has reached the deadline, the timeout must be out before the ready queue has drained
     t_expr, t_await = {}, {}
